@@ -214,6 +214,10 @@ class Run:
             return cur.reduce(self.shared[op["f"]], dim=d, batch_size=op["v"])
         if k == "map_p":
             return cur.map(self.shared[op["f"]])
+        if k == "dup_add":      # the same sub-expression twice, as two sets of node objects
+            return cur.map(CALL[op["f"]]).add(cur.map(CALL[op["f"]]))
+        if k == "norm":         # batched mean and std both build the batched sum
+            return cur.subtract(cur.mean(d, batch_size=op["v"])).divide(cur.std(d, batch_size=op["v"]))
         if k == "map":
             return cur.map(CALL[op["f"]])
         if k == "addc":
@@ -298,15 +302,18 @@ class Run:
         return sorted(out, key=lambda d: (d["name"], d["fid"], d["args"], d["kwargs"], d["inputs"]))
 
 
-def union(run: Run, how: str, actions: list) -> tuple[list[dict], list[dict]]:
+def union(run: Run, how: str, actions: list) -> tuple[list[dict], list[dict], list[str]]:
     """The node descriptions of the given actions before the union, and those of the union graph."""
     from earthkit.workflows import Cascade
 
     roots = []
     for a in actions:
         roots += [n.parent if isinstance(n, Output) else n for n in np.atleast_1d(a.nodes.values).flatten().tolist()]
+    if how == "single":     # a Cascade made from ONE action: the last one
+        actions = actions[-1:]
+        roots = [n.parent if isinstance(n, Output) else n for n in np.atleast_1d(actions[0].nodes.values).flatten().tolist()]
     pre = run.nodes(roots)
-    if how == "from_actions":
+    if how in ("from_actions", "single"):
         c = Cascade.from_actions(actions)
     elif how == "add":
         c = Cascade.from_actions(actions[:1])
@@ -316,7 +323,14 @@ def union(run: Run, how: str, actions: list) -> tuple[list[dict], list[dict]]:
         c = Cascade.from_actions(actions[:1])
         for a in actions[1:]:
             c += Cascade.from_actions([a])
-    return pre, run.nodes(list(c._graph.sinks))
+    names, seen, stack = [], set(), list(c._graph.sinks)      # every node object of the Cascade's graph, by identity
+    while stack:
+        n = stack.pop()
+        if id(n) not in seen:
+            seen.add(id(n))
+            names.append(str(n.name))
+            stack.extend(i.parent for i in n.inputs.values())
+    return pre, run.nodes(list(c._graph.sinks)), names
 
 
 FUNCS = Registry()      # callable identity -> small integer, stable over the whole run (names are compared across cases)
@@ -325,7 +339,7 @@ FUNCS = Registry()      # callable identity -> small integer, stable over the wh
 def observe(case: dict) -> dict:
     funcs = FUNCS
     builds, nodes, steps = [], [], []
-    pres, unis = [], []
+    pres, unis, uninames = [], [], []
     shared = payloads()
     refs = {op["o"] for op in list(case["p"]) + list(case["q"])} | {case["start"]}
     for _ in range(2):                      # two independent builds of the same case
@@ -339,9 +353,10 @@ def observe(case: dict) -> dict:
                 names.append(run.program(case["q"], case["start"], e))
         builds.append(names)
         if case.get("union"):   # the union of the source and of what the programs built (de-duplicates, in place)
-            pre, uni = union(run, case["union"], [e[case["start"]]] + [a for a in run.finals if a is not None])
+            pre, uni, un = union(run, case["union"], [e[case["start"]]] + [a for a in run.finals if a is not None])
             pres += pre
             unis += uni
+            uninames.append(un)
         nodes += run.nodes()
         steps += run.steps
     # the same node may be listed by both builds only if it is the same description
@@ -352,4 +367,6 @@ def observe(case: dict) -> dict:
     res = {"nodes": uniq, "build1": builds[0], "build2": builds[1], "steps": steps}
     if case.get("union"):
         res["pre"], res["uni"] = pres, unis
+        res["uninames"] = uninames[0]       # of the first build (each build has its own node objects)
+        res["uninames2"] = uninames[1]
     return res
